@@ -87,9 +87,11 @@ func e2eSequences(c *e2eCtx) error {
 		"plus %d random sequences of length %d on further generated projects; after every step: exit status class and number of tracking points vs the Lean abstract machine (Cmd.absStep), go build, "+
 		"C05 tables when instrumented, no artefact when clean, syntax tree+comments of every file equal to the user's current text; non-trivial = the step changed the tree", depth, strings.Join(seqOps, ", "), nRandom, randLen)
 	r0 := rand.New(rand.NewSource(c.rng.Int63()))
-	base, err := c.newScenario(0, r0, proj.Opts{InScope: true, SmallBody: true, Mains: 2, Libs: 2, FuncsPer: 2}, func(r *rand.Rand, old string) proj.Config {
+	// the tracking package lives in internal/cov, next to a hand-written file of the project
+	base, err := c.newScenario(0, r0, proj.Opts{InScope: true, SmallBody: true, Mains: 2, Libs: 2, FuncsPer: 2, PkgDirNotes: true}, func(r *rand.Rand, old string) proj.Config {
 		cfg := proj.DefaultConfig(old)
 		cfg.Granularity = "patch"
+		cfg.Alias, cfg.PkgName, cfg.PkgPath = "cov", "covpkg", "internal/cov"
 		return cfg
 	})
 	if err != nil {
@@ -129,10 +131,13 @@ func e2eSequences(c *e2eCtx) error {
 	})
 	// random longer sequences on other projects
 	c.parallel(nRandom, func(i int, r *rand.Rand) {
-		s, err := c.newScenario(1000+i, r, proj.Opts{InScope: true, SmallBody: true, RootMain: r.Intn(2) == 0}, func(r *rand.Rand, old string) proj.Config {
+		s, err := c.newScenario(1000+i, r, proj.Opts{InScope: true, SmallBody: true, RootMain: r.Intn(2) == 0, PkgDirNotes: i%2 == 0}, func(r *rand.Rand, old string) proj.Config {
 			cfg := proj.DefaultConfig(old)
 			cfg.Granularity = pick(r, []string{"line", "patch", "scope", "func"})
 			cfg.Precision = pick(r, []int{2, 3})
+			if i%2 == 0 {
+				cfg.Alias, cfg.PkgName, cfg.PkgPath = "cov", "covpkg", "internal/cov"
+			}
 			return cfg
 		})
 		if err != nil {
@@ -338,6 +343,11 @@ func (c *e2eCtx) seqStep(base *scenario, st *seqState, op string, r *rand.Rand, 
 		s2.cfg = cfg
 		s2.dir = st.dir
 		c.judgeC05As("C05,C11", &s2, in, func(extra map[string]any) map[string]any { return rp(extra) })
+	}
+	for _, p := range sortedKeys(base.newTree) {
+		if !strings.HasSuffix(p, ".go") && p != "goat.yaml" && after[p] != base.newTree[p] {
+			c.violate("C11", fmt.Sprintf("after %v the file %s (not a Go file) is modified or gone", st.trace, p), rp(nil))
+		}
 	}
 	var paths []string
 	for p := range st.userText {
